@@ -75,6 +75,11 @@ type Enc struct {
 	lastLoopRefs map[string][]string     // result of the last discovery: heap key -> loop-invariant written objects
 	farrMemo     map[string]string       // (object ref, field) -> name of the derived row reference
 	farrBase     map[string]string       // derived row reference name -> object reference term
+	unrefWrites  map[string]bool         // during discovery: heap keys written without a recorded target object
+	lastLoopInv  map[string][]string     // result of the last discovery: heap key -> the loop-invariant ones among the written objects
+	lastLoopUnref map[string]bool        // result of the last discovery: heap keys with unrecorded write targets
+	freshLoops   []*freshLoop
+	curGuard     T
 	topFn     *ssa.Function
 	pkg       *ssa.Package
 }
@@ -777,6 +782,7 @@ func (e *Enc) loopHeader(fr *Frame, li *LoopInfo, guard T, st *State) (T, *State
 			ks = append(ks, k)
 		}
 		sort.Strings(ks)
+		var freshReg *freshLoop
 		// heap families touched by unknown callees inside the loop (partial havocs)
 		fams := map[string]bool{}
 		for _, k := range ks {
@@ -806,6 +812,28 @@ func (e *Enc) loopHeader(fr *Frame, li *LoopInfo, guard T, st *State) (T, *State
 			// frame: the loop writes this component only at objects known before the loop, so every
 			// other object's entry is untouched
 			ksp, kty := heapKeyType(k)
+			if inv, has := e.lastLoopInv[k]; has && spec.FrameFresh && srt.K == SArray && srt.Idx.K == SInt && !strings.HasPrefix(k, "G|") && !fams[ksp+"|"+kty] && !e.lastLoopUnref[k] {
+				if _, allKnown := e.lastLoopRefs[k]; !allKnown {
+					// `frame fresh`: objects that existed when the region was entered and are not written
+					// from the start keep their entry (every write in the loop is checked, see checkFreshWrite)
+					e.qCtr++
+					r := fmt.Sprintf("lf!%d", e.qCtr)
+					top0 := e.epochGet(e.ep0, "!top", IntS)
+					// (negative references are rows of array-typed fields of pre-existing objects: a checked write is never negative unless known)
+					conds := []string{"(or (< " + r + " 0) (and (< 0 " + r + ") (< " + r + " " + top0.E + ")))"}
+					for _, x := range inv {
+						conds = append(conds, "(not (= "+r+" "+x+"))")
+					}
+					e.emit(fmt.Sprintf("(assert (forall ((%s Int)) (=> (and %s) (= (select %s %s) (select %s %s)))))", r, strings.Join(conds, " "), st.H[k].E, r, oldH.E, r))
+					if e.discovery == 0 {
+						if freshReg == nil {
+							freshReg = &freshLoop{li: li, fr: fr, known: map[string][]string{}}
+							e.freshLoops = append(e.freshLoops, freshReg)
+						}
+						freshReg.known[k] = inv
+					}
+				}
+			}
 			if rs, ok := e.lastLoopRefs[k]; ok && srt.K == SArray && srt.Idx.K == SInt && !strings.HasPrefix(k, "G|") && !fams[ksp+"|"+kty] {
 				e.qCtr++
 				r := fmt.Sprintf("lf!%d", e.qCtr)
@@ -910,6 +938,8 @@ func (e *Enc) discoverWrites(fr *Frame, li *LoopInfo, guard T, st *State) map[st
 	e.writes = map[string]bool{}
 	saveRefs, saveNames := e.writeRefs, e.discNames
 	e.writeRefs, e.discNames = map[string]map[string]bool{}, map[string]bool{}
+	saveUnref := e.unrefWrites
+	e.unrefWrites = map[string]bool{}
 	sub := &Frame{fn: fr.fn, vals: map[ssa.Value]Val{}, edges: map[[2]int]*Edge{}, guards: map[int]T{}, loops: fr.loops,
 		contract: fr.contract, depth: fr.depth, path: fr.path, bind: fr.bind, region: li.blocks, lazy: true, entrySt: fr.entrySt,
 		endStates: map[int]*State{}, lets: map[string]Val{}, callOrd: map[string]int{}}
@@ -954,6 +984,8 @@ func (e *Enc) discoverWrites(fr *Frame, li *LoopInfo, guard T, st *State) map[st
 	w := e.writes
 	// which objects were written, if they are all known before the loop (loop-invariant references)
 	e.lastLoopRefs = map[string][]string{}
+	e.lastLoopInv = map[string][]string{}
+	e.lastLoopUnref = e.unrefWrites
 	for k, refs := range e.writeRefs {
 		ok := true
 		var rs []string
@@ -964,15 +996,22 @@ func (e *Enc) discoverWrites(fr *Frame, li *LoopInfo, guard T, st *State) map[st
 			}
 			if strings.ContainsAny(base, " (") || e.discNames[base] {
 				ok = false
-				break
+				continue
 			}
 			rs = append(rs, r)
 		}
+		sort.Strings(rs)
+		e.lastLoopInv[k] = rs
 		if ok {
-			sort.Strings(rs)
 			e.lastLoopRefs[k] = rs
 		}
 	}
+	if saveUnref != nil {
+		for k := range e.unrefWrites {
+			saveUnref[k] = true
+		}
+	}
+	e.unrefWrites = saveUnref
 	for k, refs := range e.writeRefs { // propagate to an enclosing discovery
 		if saveRefs != nil {
 			if saveRefs[k] == nil {
@@ -1074,6 +1113,7 @@ func (e *Enc) block(fr *Frame, b *ssa.BasicBlock, guard T, st *State) {
 	for i, ins := range b.Instrs {
 		fr.curIdx = i
 		e.st = st
+		e.curGuard = guard
 		if _, ok := ins.(*ssa.Phi); ok {
 			continue
 		}
@@ -1200,6 +1240,61 @@ func (e *Enc) exitEdge(fr *Frame, from, to *ssa.BasicBlock, guard T, st *State) 
 func (e *Enc) markWrite(key string) {
 	if e.writes != nil {
 		e.writes[key] = true
+		// a write whose target object is not recorded in writeRefs: the component cannot be framed per object
+		if e.unrefWrites == nil {
+			e.unrefWrites = map[string]bool{}
+		}
+		e.unrefWrites[key] = true
+	}
+}
+
+// markWriteRef marks a write whose target object is recorded in writeRefs (see storeAt).
+func (e *Enc) markWriteRef(key string) {
+	if e.writes != nil {
+		e.writes[key] = true
+	}
+}
+
+// freshLoop is a loop annotated `frame fresh`: inside it, every write to a framed heap component
+// goes to an object known before the loop (known) or to an object allocated since the region
+// (function / loop iteration under contract) was entered. Each write is an obligation; in return
+// the havoc at the loop head keeps every other pre-existing object's entry.
+type freshLoop struct {
+	li    *LoopInfo
+	fr    *Frame
+	known map[string][]string // heap key -> loop-invariant references written
+}
+
+func (e *Enc) checkFreshWrite(key string, ref T) {
+	if e.discovery > 0 || e.specEval > 0 || len(e.freshLoops) == 0 {
+		return
+	}
+	for _, fl := range e.freshLoops {
+		if fl.fr.curBlock == nil || !fl.li.blocks[fl.fr.curBlock] {
+			continue
+		}
+		known, framed := fl.known[key]
+		if !framed {
+			continue
+		}
+		top0 := e.epochGet(e.ep0, "!top", IntS)
+		alts := []T{{BoolS, app("<=", top0.E, ref.E)}}
+		isKnown := false
+		for _, k := range known {
+			if k == ref.E {
+				isKnown = true
+			}
+			alts = append(alts, Eq(ref, T{IntS, k}))
+		}
+		if isKnown {
+			continue
+		}
+		pos := token.NoPos
+		if fl.fr.curBlock != nil && fl.fr.curIdx < len(fl.fr.curBlock.Instrs) {
+			pos = fl.fr.curBlock.Instrs[fl.fr.curIdx].Pos()
+		}
+		e.oblige("loop-frame", fmt.Sprintf("loop%d:%s@%s", fl.li.ord, key, e.srcLabel(pos, "")), e.curGuard, Or(alts...),
+			"write inside a `frame fresh` loop goes to an object allocated by the code under contract or to one written by the loop from the start", pos)
 	}
 }
 
